@@ -155,6 +155,7 @@ func run(t failer, c Case, labels ...string) {
 			surveyMu.Lock()
 			surveyN[v.Class]++
 			n := surveyN[v.Class]
+			surveyN[v.Class+"|"+strings.Join(c.How[:1], "")+"|"+fmt.Sprint(len(c.How) > 1 && strings.Contains(strings.Join(c.How, " "), " perturb"))]++
 			surveyMu.Unlock()
 			vk.R.Class("FAIL " + v.Class)
 			if n <= 3 {
